@@ -42,6 +42,14 @@ class Ctx:
         return cov
 
 
+def _ract(step):
+    """action of a recorded step for a replay file; a blind step (applied without observing) is replayed blind"""
+    a = dict(step["act"])
+    if step.get("blind"):
+        a["_blind"] = True
+    return a
+
+
 def tier_val(v, tier):
     if isinstance(v, dict) and ("quick" in v or "thorough" in v):
         return v.get(tier, v.get("quick"))
@@ -136,7 +144,8 @@ def stage_walk(ctx, st):
                 cache[(st["module"], cfg)] = (cpath, r, gi)
         out = os.path.join(wd, "walk_result.json")
         env = dict(VERIF_GRAPH=graph, VERIF_OUT=out, VERIF_SEED=ctx.seed, VERIF_BUDGET_S=budget,
-                   VERIF_MAXWALK=st.get("maxwalk", 64), VERIF_TIER=ctx.tier, VERIF_ALT=alt["name"])
+                   VERIF_MAXWALK=st.get("maxwalk", 64), VERIF_TIER=ctx.tier, VERIF_ALT=alt["name"],
+                   VERIF_RANDOM_S=tier_val(st.get("random", 0), ctx.tier), VERIF_BLIND_P=st.get("blind", 0))
         if ctx.replay:
             env["VERIF_REPLAY"] = ctx.replay
         env.update(st.get("env", {}))
@@ -156,7 +165,7 @@ def stage_walk(ctx, st):
             raise CannotDecide(f"harness error in {st['test']}: {errs[0].get('error')}\n{g['out'][-2000:]}")
         if res["steps"] == 0 and not res.get("divergences"):
             raise CannotDecide(f"dead driver: {st['test']} replayed no step ({res.get('note')})")
-        log(f"[{ctx.prop}] walk {name}/{alt['name']}: {res['walks']} walks, {res['steps']} steps, groups {res['groups_covered']}/{res['groups_total']}, divergences {len(res.get('divergences') or [])}, devs {res.get('dev_counts')}, timed_out={res['timed_out']}")
+        log(f"[{ctx.prop}] walk {name}/{alt['name']}: {res['walks']} walks, {res['steps']} steps, groups {res['groups_covered']}/{res['groups_total']}, divergences {len(res.get('divergences') or [])}, devs {res.get('dev_counts')}, timed_out={res['timed_out']}" + (f", random phase {res.get('random_walks')} walks {res.get('random_steps')} steps" if res.get('random_steps') else ""))
         if not (res.get("divergences") or []):
             break  # conforms to this alternative; no need to try the others
     good = [r for r in results if not (r.get("divergences") or [])]
@@ -176,7 +185,7 @@ def stage_walk(ctx, st):
         graph_states=chosen["_gi"]["states"], graph_edges=chosen["_gi"]["edges"],
         edge_groups_total=chosen["groups_total"], edge_groups_replayed=chosen["groups_covered"],
         edges_matched=chosen["edges_covered"], walks=chosen["walks"], steps=chosen["steps"],
-        timed_out=chosen["timed_out"], dev_counts=chosen.get("dev_counts"), tlc_wall_s=round(chosen["_tlc"]["wall_s"], 2), walk_wall_s=round(chosen["wall_s"], 2)))
+        timed_out=chosen["timed_out"], random_walks=chosen.get("random_walks", 0), random_steps=chosen.get("random_steps", 0), dev_counts=chosen.get("dev_counts"), tlc_wall_s=round(chosen["_tlc"]["wall_s"], 2), walk_wall_s=round(chosen["wall_s"], 2)))
     # deviations followed by the real code
     for dev, n in (chosen.get("dev_counts") or {}).items():
         k = vlib.open_finding(ctx.prop, dev)
@@ -188,14 +197,14 @@ def stage_walk(ctx, st):
             p = ctx.new_replay_path(name)
             with open(p, "w") as fh:
                 json.dump(dict(property=ctx.prop, stage=name, module=st["module"], alternative=chosen["_alt"], kind="unlisted-deviation", deviation=dev,
-                               init=hit["init"], actions=[s["act"] for s in (hit.get("prefix") or [])] + [hit["act"]], observed=hit.get("observed")), fh, indent=1)
+                               init=hit["init"], actions=[_ract(s) for s in (hit.get("prefix") or [])] + [hit["act"]], observed=hit.get("observed")), fh, indent=1)
             ctx.violations.append(p)
     if not good:
         for d in results[0]["divergences"]:
             p = ctx.new_replay_path(name)
             with open(p, "w") as fh:
                 json.dump(dict(property=ctx.prop, stage=name, module=st["module"], alternative=results[0]["_alt"], kind=d["kind"],
-                               init=d["init"], actions=[s["act"] for s in (d.get("prefix") or [])] + ([d["act"]] if d.get("act") else []),
+                               init=d["init"], actions=[_ract(s) for s in (d.get("prefix") or [])] + ([d["act"]] if d.get("act") else []),
                                divergence=d, other_alternatives=[dict(alt=r["_alt"], first=(r["divergences"][0] if r["divergences"] else None)) for r in results[1:]]), fh, indent=1)
             log(f"[{ctx.prop}] DIVERGENCE at {json.dumps(d.get('act'))}: differing fields {d.get('diff_fields')} observed={json.dumps(d.get('observed'))[:400]}")
             ctx.violations.append(p)
